@@ -9,6 +9,7 @@ CONSTANTS MaxOps, Alphabet    \* Alphabet: names of writer ops, see OpOf
 OpOf(a) == CASE a = "S0"   -> <<"status", 0>>
              [] a = "Sneg" -> <<"status", -1>>
              [] a = "S100" -> <<"status", 100>>
+             [] a = "S200" -> <<"status", 200>>      \* an explicit 200 is a status like any other: it replaces an earlier choice
              [] a = "S201" -> <<"status", 201>>
              [] a = "S404" -> <<"status", 404>>
              [] a = "S500" -> <<"status", 500>>
